@@ -32,6 +32,25 @@ type c20Log struct {
 	evs []c20Ev
 }
 
+// waitFor polls the log until some event satisfies f (or d has passed).
+func (l *c20Log) waitFor(d time.Duration, f func(c20Ev) bool) bool {
+	dl := time.Now().Add(d)
+	for {
+		l.mu.Lock()
+		for _, e := range l.evs {
+			if f(e) {
+				l.mu.Unlock()
+				return true
+			}
+		}
+		l.mu.Unlock()
+		if time.Now().After(dl) {
+			return false
+		}
+		time.Sleep(500 * time.Microsecond)
+	}
+}
+
 func (l *c20Log) add(evs ...c20Ev) {
 	l.mu.Lock()
 	l.evs = append(l.evs, evs...)
@@ -186,6 +205,13 @@ func (h *c20H) Consume(ctx context.Context, tok int, pattern string, r io.Reader
 		read(16)
 		time.Sleep(5 * time.Millisecond)
 		read(1)
+	case "pasteofpeer":
+		// reads on after EOF while ANOTHER call's handler is at work (its upload arrived after this one was complete)
+		toEOF(4096)
+		lg.waitFor(1500*time.Millisecond, func(e c20Ev) bool { return e["ev"] == "hstart" && e["c"] != tok })
+		time.Sleep(3 * time.Millisecond)
+		read(16)
+		read(16)
 	case "eofclose":
 		toEOF(4096)
 		closeR()
@@ -334,7 +360,17 @@ func c20Scenario(rng *rand.Rand, sc int, transport, order string, calls []map[st
 		payloads[tok] = data
 		env.log.add(c20Ev{"ev": "callstart", "c": tok, "len": n, "digest": digest(data), "pattern": c["pattern"]})
 		var rd io.Reader = bytes.NewReader(data)
+		// readers that know their size and are handed over partly consumed: only what is left belongs to the parameter
+		pre := []byte("consumed-before-the-call:")
+		whole := append(append([]byte{}, pre...), data...)
+		skip := func(r io.Reader) io.Reader { io.ReadFull(r, make([]byte, len(pre))); return r }
 		switch c["src"] {
+		case "partbytes":
+			rd = skip(bytes.NewReader(whole))
+		case "partstr":
+			rd = skip(strings.NewReader(string(whole)))
+		case "section":
+			rd = skip(io.NewSectionReader(bytes.NewReader(whole), 0, int64(len(whole))))
 		case "slow":
 			rd = &slowReader{r: rd, chunk: 1 + n/7, d: time.Millisecond}
 		case "pipe":
@@ -343,8 +379,15 @@ func c20Scenario(rng *rand.Rand, sc int, transport, order string, calls []map[st
 			rd = pr
 		}
 		wg.Add(1)
+		after := 0
+		if v, ok := c["after_eof_of"].(float64); ok {
+			after = int(v)
+		}
 		go func(tok int, pattern string, rd io.Reader) {
 			defer wg.Done()
+			if after > 0 { // issued only once call `after`'s handler has read its parameter to the end
+				env.log.waitFor(2*time.Second, func(e c20Ev) bool { return e["ev"] == "readend" && e["c"] == after && e["cls"] == "eof" })
+			}
 			ctx, cancel := context.WithTimeout(context.Background(), 6*time.Second)
 			defer cancel()
 			done := make(chan c20Ev, 1)
